@@ -12,7 +12,8 @@ import subprocess
 import multiprocessing as mp
 
 VERIF = os.path.dirname(os.path.dirname(os.path.dirname(os.path.abspath(__file__))))
-REPO_PKG = '/repo/pymoto'
+REPO_ROOT = os.path.realpath(os.environ.get('PMC_REPO', '/repo'))
+REPO_PKG = os.path.join(REPO_ROOT, 'pymoto')
 CASE_TIMEOUT_S = int(os.environ.get('PMC_CASE_TIMEOUT_S', '300'))
 
 
@@ -60,7 +61,7 @@ def classify_exception(exc):
     in_repo = [f for f in tb if f.filename.startswith(REPO_PKG)]
     if in_repo:
         f = in_repo[-1]
-        return True, f"{os.path.relpath(f.filename, '/repo')}:{f.name}"
+        return True, f"{os.path.relpath(f.filename, REPO_ROOT)}:{f.name}"
     return False, None
 
 
